@@ -28,6 +28,23 @@ func ruleC05(r *Report) {
 
 	validate := p.MustFunc("saml", "IdpAuthnRequest", "Validate")
 	a := NewAnalysis(p)
+	// checks moved into error-returning helpers of the root package are analysed as part of the validator; the
+	// endpoint selection (the function that stores ACSEndpoint) stays an opaque step with its own rules
+	a.Inline = func(f *ssa.Function) bool {
+		if !p.InLibrary(f) || f.Pkg == nil || f.Pkg.Pkg.Path() != modPath || !(f.Signature.Results().Len() == 1 && errIndex(f) == 0) {
+			return false
+		}
+		for _, b := range f.Blocks {
+			for _, in := range b.Instrs {
+				if st, ok := in.(*ssa.Store); ok {
+					if fa, ok := st.Addr.(*ssa.FieldAddr); ok && fieldName(fa.X.Type(), fa.Field) == "ACSEndpoint" {
+						return false
+					}
+				}
+			}
+		}
+		return true
+	}
 	B := a.B
 	t := NewTable(r, a, validate)
 	V := t.V
